@@ -480,7 +480,7 @@ def plan_lists(ctx):
     q = ctx.quick()
     ctx.model("mcord-a", "MCOrd", ord_consts(5 if q else 7), ORD_INV)
     ctx.model("mckey-a", "MCKey", key_consts(3, 3), KEY_INV)
-    ctx.model("mclist", "MCKeyList", {"Keys": keyset(3), "MaxTime": 3 if q else 4}, ["MinExpOK", "Refinement"])
+    ctx.model("mclist", "MCKeyList", {"Keys": keyset(3), "MaxTime": 3 if q else 4, "Faults": "FALSE"}, ["MinExpOK", "Refinement"])
     ctx.model("mcordlist", "MCOrdList", {"Keys": keyset(6 if q else 8), "StepMode": '"fixed"'}, ["Inv"], view=False)
     futs = ord_cover_jobs(ctx, ORD_LISTS if not q else ["maplist-i32", "setlist-str"], 4, [0], 1 if q else 2, limit=40 if q else None)
     futs += key_cover_jobs(ctx, ["keylist"], 3, 3 if not q else 2, [0], 2 if q else 4, limit=60 if q else 300)
@@ -515,6 +515,8 @@ def plan_faults(ctx):
     q = ctx.quick()
     ctx.model("mckey-f", "MCKey", key_consts(3, 2 if q else 3, faults=True), KEY_INV)
     ctx.model("mcord-a", "MCOrd", ord_consts(5 if q else 7), ORD_INV)
+    ctx.model("mclist-f", "MCKeyList", {"Keys": keyset(3), "MaxTime": 3 if q else 4, "Faults": "TRUE"}, ["MinExpOK", "Refinement"])
+    seg_models(ctx, faults=True)
     futs = key_cover_jobs(ctx, ["keytree", "keylist"], 3, 2, [0], 2 if q else 4, driver="faults", limit=24 if q else 200,
                           flags=("fault",), max_events=60000 if q else 600000)
     ords = ["maptree-i32", "settree-str", "maplist-str", "setlist-i32"] if q else ORD_TREES_MAP + ORD_TREES_SET + ORD_LISTS
@@ -583,12 +585,13 @@ def layout_jobs(ctx, thorough):
     return futs
 
 
-def seg_models(ctx, dynamic=True, heap=False, layout=False):
+def seg_models(ctx, dynamic=True, heap=False, layout=False, faults=False):
     q = ctx.quick()
+    fl = "TRUE" if faults else "FALSE"
     if dynamic:
-        ctx.model("mcseg-h2", "MCSeg", {"H": 2, "MaxVals": 2 if q else 3, "MaxTime": 2}, ["Inv"], view=False, workers=8)
+        ctx.model("mcseg-h2", "MCSeg", {"H": 2, "MaxVals": 2 if q else 3, "MaxTime": 2, "Faults": fl}, ["Inv"], view=False, workers=8)
         if not q:
-            ctx.model("mcseg-h3", "MCSeg", {"H": 3, "MaxVals": 2, "MaxTime": 2}, ["Inv"], view=False, workers=8)
+            ctx.model("mcseg-h3", "MCSeg", {"H": 3, "MaxVals": 2, "MaxTime": 2, "Faults": fl}, ["Inv"], view=False, workers=8)
     if heap:
         ctx.model("mcheap-h5", "MCHeap", {"H": 5}, ["Inv"], view=False, workers=8)
         if not q:
@@ -739,7 +742,7 @@ def plan_c12(ctx):
     rnd = random.Random(ctx.seed)
     ctx.model("mcord-a", "MCOrd", ord_consts(5 if q else 7), ORD_INV)
     ctx.model("mckey-a", "MCKey", key_consts(3, 3), KEY_INV)
-    ctx.model("mclist", "MCKeyList", {"Keys": keyset(3), "MaxTime": 3}, ["MinExpOK", "Refinement"])
+    ctx.model("mclist", "MCKeyList", {"Keys": keyset(3), "MaxTime": 3, "Faults": "FALSE"}, ["MinExpOK", "Refinement"])
     seg_models(ctx)
     jobs = []
     # ordered map / set
@@ -819,7 +822,7 @@ def plan_c10(ctx):
     q = ctx.quick()
     ctx.model("mcord-a", "MCOrd", ord_consts(6 if q else 8), ORD_INV)
     ctx.model("mckey-a", "MCKey", key_consts(3, 3), KEY_INV)
-    ctx.model("mclist", "MCKeyList", {"Keys": keyset(3), "MaxTime": 3}, ["MinExpOK", "Refinement"])
+    ctx.model("mclist", "MCKeyList", {"Keys": keyset(3), "MaxTime": 3, "Faults": "FALSE"}, ["MinExpOK", "Refinement"])
     ctx.model("mcordlist", "MCOrdList", {"Keys": keyset(6), "StepMode": '"fixed"'}, ["Inv"], view=False)
     seg_models(ctx, heap=True, layout=True)
     allord = ORD_TREES_MAP + ORD_TREES_SET + ORD_LISTS
